@@ -56,7 +56,7 @@ type Case struct {
 	// initial window is the default, see earlyAck) may grow its encoder's table up to it.
 	CTable uint32 `json:"ctable,omitempty"`
 	STable uint32 `json:"stable,omitempty"`
-	Procs  int     `json:"procs"` // stream-processor configuration, see h2kit.Factories
+	Procs  int    `json:"procs"` // stream-processor configuration, see h2kit.Factories
 }
 
 var (
